@@ -41,6 +41,7 @@ package termincommittee
 //@   | && (forall gv int :: proposed[gv] && gv > 0 ==> tic.latestViewThatProcessedVCMOrNVM >= gv)
 //@   | && (ncommitted == 0 ==> (forall gv int :: ppStored[gv] ==> gv <= tic.State.view))
 //@   | && (ncommitted == 0 ==> tic.latestViewThatProcessedVCMOrNVM <= tic.State.view)
+//@   | && (ncommitted == 0 ==> lastVC <= tic.State.view)
 //@   | && (ncommitted == 0 && tic.preparedLocally != nil && tic.preparedLocally.isPreparedLocally ==> tic.preparedLocally.latestView <= tic.State.view)
 
 // the lock (prepared certificate) is never dropped or moved back within a term (C09)
@@ -107,6 +108,19 @@ package termincommittee
 //@     | && result0[i].content.SignedHeader().BlockHeight() == blockHeight && result0[i].content.SignedHeader().View() == view
 //@     | && result0[i].content.SignedHeader().BlockHash() == blockHash
 //@     | && result0[i].content.Sender().MemberId() == CIds(self, cver, blockHeight, view, blockHash)[i]
+
+//@ iface interfaces.Storage.GetPreprepareFromView
+//@   ensures result1 == ppStored[view]
+//@   ensures result1 ==> result0 != nil && result0.content != nil && result0.content.SignedHeader().View() == view
+//@     | && result0.content.SignedHeader().BlockHeight() == blockHeight && content(result0.content.SignedHeader().BlockHash()) == ppHash[view]
+
+//@ iface interfaces.Storage.GetPrepareMessages
+//@   ensures result0 == PMsgs(self, pver, blockHeight, view, blockHash)
+//@   ensures forall i :: 0 <= i && i < len(result0) ==> PrepareOK(caller, result0[i]) && result0[i].content.SignedHeader().BlockHeight() == blockHeight
+//@     | && result0[i].content.SignedHeader().View() == view && result0[i].content.SignedHeader().BlockHash() == blockHash
+
+//@ iface interfaces.Storage.ClearBlockHeightLogs
+//@   ensures true
 
 //@ iface interfaces.Storage.GetPreprepareMessage
 //@   ensures result1 == ppStored[view]
@@ -374,10 +388,10 @@ package termincommittee
 //@   requires [O8.4.addressed-to-me-as-leader] caller.myMemberId == LeaderOf(caller.committeeMembers, vcm.content.SignedHeader().View())
 //@   requires [O8.4.height] vcm.content.SignedHeader().BlockHeight() == caller.State.height
 //@   requires [O8.4.not-stale] vcm.content.SignedHeader().View() >= caller.State.view
-//@   requires [O8.4.valid-proof] ProofOK(caller, vcm.content.SignedHeader().PreparedProof(), vcm.content.SignedHeader().BlockHeight(), vcm.content.SignedHeader().View())
-//@   requires [O8.4.proof-comes-with-its-block] vcm.content.SignedHeader().PreparedProof() != nil && len(vcm.content.SignedHeader().PreparedProof().Raw()) > 0 ==>
-//@     | vcm.block != nil && Commits(caller.blockUtils, vcm.content.SignedHeader().BlockHeight(), vcm.block, vcm.content.SignedHeader().PreparedProof().PreprepareBlockRef().BlockHash())
-//@   requires [O8.4.block-comes-with-its-proof] vcm.block != nil ==> vcm.content.SignedHeader().PreparedProof() != nil && len(vcm.content.SignedHeader().PreparedProof().Raw()) > 0
+//@   requires [O8.4.valid-proof] vcm.content.Sender().MemberId() == caller.myMemberId || ProofOK(caller, vcm.content.SignedHeader().PreparedProof(), vcm.content.SignedHeader().BlockHeight(), vcm.content.SignedHeader().View())
+//@   requires [O8.4.proof-comes-with-its-block] vcm.content.Sender().MemberId() == caller.myMemberId || (vcm.content.SignedHeader().PreparedProof() != nil && len(vcm.content.SignedHeader().PreparedProof().Raw()) > 0 ==>
+//@     | vcm.block != nil && Commits(caller.blockUtils, vcm.content.SignedHeader().BlockHeight(), vcm.block, vcm.content.SignedHeader().PreparedProof().PreprepareBlockRef().BlockHash()))
+//@   requires [O8.4.block-comes-with-its-proof] vcm.content.Sender().MemberId() == caller.myMemberId || (vcm.block != nil ==> vcm.content.SignedHeader().PreparedProof() != nil && len(vcm.content.SignedHeader().PreparedProof().Raw()) > 0)
 //@   modifies ghost:vcver
 //@   ensures vcver == old(vcver) + 1
 
@@ -397,6 +411,7 @@ package termincommittee
 
 // the election path of the leader-to-be
 //@ func (*TermInCommittee).checkElected
+//@   ensures [view-monotone] tic.State.view >= old(tic.State.view) && tic.State == old(tic.State) && lastVC == old(lastVC)
 //@   requires [term-not-yet-committed] ncommitted == 0
 //@   ensures [O9.lock-kept] LockKept(tic, old(tic.preparedLocally), old(tic.preparedLocally.isPreparedLocally), old(tic.preparedLocally.latestView))
 //@   props C07 C09 C10
@@ -411,6 +426,7 @@ package termincommittee
 //@     invariant [ghost-frame] forall gv int :: ppStored[gv] == old(ppStored[gv]) && ppHash[gv] == old(ppHash[gv]) && sentPrepare[gv] == old(sentPrepare[gv]) && sentCommit[gv] == old(sentCommit[gv]) && sentPrepareHash[gv] == old(sentPrepareHash[gv]) && sentCommitHash[gv] == old(sentCommitHash[gv]) && proposed[gv] == old(proposed[gv])
 
 //@ func (*TermInCommittee).onElectedByViewChange
+//@   ensures [view-monotone] tic.State.view >= old(tic.State.view) && tic.State == old(tic.State) && lastVC == old(lastVC)
 //@   requires [term-not-yet-committed] ncommitted == 0
 //@   ensures [O9.lock-kept] LockKept(tic, old(tic.preparedLocally), old(tic.preparedLocally.isPreparedLocally), old(tic.preparedLocally.latestView))
 //@   props C07 C09 C10 C04
@@ -439,3 +455,41 @@ package termincommittee
 //@ dep interfaces.ExtractConfirmationsFromViewChangeMessages
 //@   params vcms
 //@   ensures len(result) == len(vcms)
+
+// ---------------- election by timeout, term start (C09 C10 C14 C19) ----------------
+
+// A-SPI: the consumer's election callback does not touch library state
+//@ dep param:(*termincommittee.TermInCommittee).moveToNextLeaderByElection.updateMetrics
+//@   ensures true
+
+//@ func (*TermInCommittee).sendConsensusMessageToSpecificMember
+//@   trusted
+//@   requires [O10.6.only-votes-are-unicast] istype(message, *interfaces.ViewChangeMessage)
+//@   requires [O10.6.vote-for-the-view-just-entered] dyn(message, *interfaces.ViewChangeMessage).content.SignedHeader().View() == tic.State.view
+//@   requires [O10.6.vote-views-strictly-increase] dyn(message, *interfaces.ViewChangeMessage).content.SignedHeader().View() > lastVC
+//@   requires [O10.6.addressed-to-the-leader-of-that-view] targetMemberId == LeaderOf(tic.committeeMembers, dyn(message, *interfaces.ViewChangeMessage).content.SignedHeader().View())
+//@   modifies ghost:lastVC
+//@   ensures lastVC == dyn(message, *interfaces.ViewChangeMessage).content.SignedHeader().View()
+
+//@ func (*TermInCommittee).moveToNextLeaderByElection
+//@   props C09 C10 C19 C07
+//@   requires TicOK(tic)
+//@   inv GhostInv(tic)
+//@   requires [term-not-yet-committed] ncommitted == 0
+//@   modifies @TIC
+//@   ensures [O9.lock-kept] LockKept(tic, old(tic.preparedLocally), old(tic.preparedLocally.isPreparedLocally), old(tic.preparedLocally.latestView))
+//@   ensures [O19.6.stale-trigger-changes-nothing] !(height == old(tic.State.height) && view == old(tic.State.view)) ==> tic.State.view == old(tic.State.view) && lastVC == old(lastVC)
+//@     | && tic.preparedLocally == old(tic.preparedLocally) && tic.latestViewThatProcessedVCMOrNVM == old(tic.latestViewThatProcessedVCMOrNVM) && vcver == old(vcver)
+//@     | && (forall gv int :: proposed[gv] == old(proposed[gv]) && sentPrepare[gv] == old(sentPrepare[gv]) && sentCommit[gv] == old(sentCommit[gv]) && ppStored[gv] == old(ppStored[gv]))
+//@   ensures [O10.6.view-advances-by-one-or-not-at-all] tic.State.view == old(tic.State.view) || old(tic.State.view) + 1 <= tic.State.view
+//@   assert before call ExtractPreparedMessages [O9.1.extracts-the-certificate-of-the-locked-view] $latestPreparedView == tic.preparedLocally.latestView && $blockHeight == tic.State.height && $committeeMembers == tic.committeeMembers && $storage == tic.storage
+//@   assert before call CreateViewChangeMessage [O9.1.vote-carries-what-was-extracted] (tic.preparedLocally != nil && tic.preparedLocally.isPreparedLocally) || $preparedMessages == nil
+
+//@ func (*TermInCommittee).startTerm
+//@   props C10 C14 C15
+//@   requires TicOK(tic)
+//@   inv GhostInv(tic)
+//@   requires [fresh-term] ncommitted == 0 && lastVC < 0 && (forall gv int :: !ppStored[gv] && !proposed[gv] && !sentPrepare[gv] && !sentCommit[gv])
+//@   modifies @TIC
+//@   assert before call sendConsensusMessage [O14.3.first-leader-only-if-allowed] tic.State.height <= 1 || canBeFirstLeader
+//@   assert before call sendConsensusMessage [O15.6.context-observed-live-after-the-proposal-request] lastCtxErrNil
